@@ -148,6 +148,16 @@ void prop(const Case& cs) {
         }
       }
       vf::label("high-value-keys");
+    } else if (op.name == "twin") {
+      // two keys with the same 26-bit coupon address and different values, in either order: two distinct coupons in LIST / SET mode,
+      // one slot holding the larger value in HLL mode
+      const auto& tp = vf::twin_pool().pairs;
+      if (tp.empty()) continue;
+      const auto& pr = tp[op.uarg(0) % tp.size()];
+      const bool small_first = (op.uarg(1) & 1) != 0;
+      feed(vf::Item{vf::T_I64, static_cast<uint64_t>(small_first ? pr.first : pr.second)});
+      feed(vf::Item{vf::T_I64, static_cast<uint64_t>(small_first ? pr.second : pr.first)});
+      vf::label("twin-address-keys");
     } else if (op.name == "level") {
       // one key per slot whose register value is exactly v: when nothing higher was seen, every register of the array holds the same
       // value (HLL_4: cur_min = v with all k registers at cur_min - the state a fresh array is in, except that it is not empty)
@@ -214,6 +224,7 @@ rc::Gen<Case> gen_main() {
       {2, op2("bulk", range(0, 40), range(0, 1))},
       {2, op3("pool", range(1, 40), range(0, 5), range(0, 1 << 20))},
       {1, op2("level", range(0, 2), range(0, 1 << 20))},
+      {2, op2("twin", range(0, 23), range(0, 1))},
       {1, op2("dups", range(1, 500), range(0, 1 << 20))},
       {1, rc::gen::map(range(0, 19), [](int64_t x) { return x == 0 ? Op{"reset", {}} : Op{"dups", {50, x}}; })},
   });
